@@ -5,7 +5,7 @@ import RigoProofs.C14Slash
 import RigoProofs.C14Gov
 open Std
 
-namespace Rigo.C14
+namespace Rigo.C14L
 
 /-! ### the stake controller's fold -/
 
@@ -295,4 +295,4 @@ theorem slash_frame_block (s : St) (h : Header) (hh : h.height = s.lastHeight + 
   · rw [h13, g2]
   · intro k hk; rw [h14 k hk, g2]
 
-end Rigo.C14
+end Rigo.C14L
